@@ -220,3 +220,11 @@ Theorem c03_from_base_is_the_source :
   /\ forall (T : Type) (F : CF T) U d coef cons v,
        eval_conv F src_from_base (base_factor F U d) coef cons v = Some (from_base F U d coef cons v).
 Proof. exact from_base_is_the_source. Qed.
+
+(* new::<N> stores to_base::<Dimension, U, V, N>(&v) and get::<N> returns from_base::<Dimension, U, V, N>(&self.value) *)
+From Coq Require Import String.
+From UomV Require Import Model.DelegSrc Gen.DelegSrc Spec.DelegTie.
+Theorem c03_new_get_sources_call_the_conversions :
+  forallb (fun e => negb (String.eqb (dl_fn e) "new" || String.eqb (dl_fn e) "get") || deleg_ok e) src_delegations = true
+  /\ covers src_delegations "src/quantity.rs" ["new"%string; "get"%string] = true.
+Proof. split; vm_compute; reflexivity. Qed.
